@@ -11,15 +11,9 @@ KER = 'tracklib.core.kernel.Kernel'
 FIL = 'tracklib.algo.filtering'
 
 EXPLANATION = (
-    "Static analysis of Filter.execute / Kernel.toSlidingWindow / filter_seq: on every path of the window loop the "
-    "numerator and the normaliser are incremented together, with the same weight, and skipped together by the "
-    "three guards (before the track, after the track, NaN); the window offsets are {-D..D} with D = N//2 and the "
-    "range guards test the index that is read; even kernels are rejected; boundary copy ranges; list kernels are "
-    "divided by their sum; a kernel object's window has odd length 2*int(support)+1, abscissas symmetric about 0 "
-    "and every value divided by the sum of all values; filter_seq hands the caller's kernel object (with its "
-    "boundary flag) to the operator and writes each coordinate from the feature just filtered.")
+    "Static analysis by interpretation of the source (nothing imported or executed by CPython): outputs must equal the weighted mean over the in-track non-NaN samples of the window (weight j with sample i + D - j), with unfiltered boundaries copied; kernel windows must be odd, symmetric, non-negative and sum to 1; filtering into the input feature must give the same values; an even kernel must be rejected; filter_seq must leave the smoothed coordinates in the track it was given, honouring the kernel's boundary flag.")
 ASSUMPTIONS = ["non-negative weights (precondition of the range clause)"]
-TECHNIQUE = "co-update on loop-body paths (F6), affine window offsets (F3), polynomial symmetry identity (F2)"
+TECHNIQUE = "abstract interpretation of Filter.execute, the Kernel classes (toSlidingWindow) and filter_seq by the checker's AST interpreter on signal / kernel configurations (lists and nine built-in kernels, both boundary settings, NaN patterns, in-place output, even kernels), against the renormalised weighted mean computed by the checker (bounded case domain)"
 
 
 def vr(v):
